@@ -22,7 +22,7 @@ import (
 
 // c06Case is the replay format of C06.
 type c06Case struct {
-	Part string `json:"part"` // "permits" | "intersect" | "image" | "image-include" | "program"
+	Part string `json:"part"` // "permits" | "intersect" | "image" | "image-include" | "program" | "container"
 	A    *mAuth `json:"a,omitempty"`
 	B    *mAuth `json:"b,omitempty"`
 	Map  *mMap  `json:"map,omitempty"`
@@ -730,6 +730,9 @@ func TestC06(t *testing.T) {
 	for _, s := range seeds {
 		c.programsFor(s, evid.N(40, 100))
 	}
+	for _, s := range seeds {
+		c.containersFor(s, evid.N(240, 1200))
+	}
 	if os.Getenv("VERIF_C06_PART") == "B" {
 		return
 	}
@@ -755,6 +758,8 @@ func (c *c06) replay(cs c06Case) {
 		c.t.Skip("include-chain cases are replayed by re-running the sampled programs (deterministic for the seed)")
 	case "program":
 		c.programsFor(cs.Seed, evid.N(40, 100))
+	case "container":
+		c.containersFor(cs.Seed, evid.N(240, 1200))
 	default:
 		c.t.Fatalf("unknown part %q", cs.Part)
 	}
